@@ -77,5 +77,15 @@ def run(ctx):
             c = mk_case("c09_%d" % i, cmds, scripts, lim=rng.choice([U24_MAX, U24_MAX, 300]))
             c.meta["expect"] = exp
             cases.append(c)
+    # parameter / column counts that are exact multiples of 256 (one-byte counters wrap to where they started)
+    for (np_, nc_) in ((256, 1), (1, 256), (256, 256), (512, 3), (0, 512)):
+        i += 1
+        cs = [dict(table=b"t", name=b"c%d" % j, type=3, flags=0) for j in range(nc_)]
+        ps = [dict(table=b"", name=b"?", type=253, flags=0) for j in range(np_)]
+        cmds = ([("query", cmd_query(b"q"))] if nc_ else []) + [("prepare", cmd_prepare(b"p"))]
+        scripts = (["q start %s fin" % progs.cols_tok(cs)] if nc_ else []) + ["p reply 5 %s %s" % (progs.cols_tok(ps), progs.cols_tok(cs))]
+        c = mk_case("c09_%d" % i, cmds, scripts)
+        c.meta["expect"] = ([("rows", cs)] if nc_ else []) + [("prep", 5, ps, cs)]
+        cases.append(c)
     ctx.diff_conn(cases, oracle=oracle, nontrivial=lambda c, o: True,
                   classify=lambda c, o: ["ncols_%d" % len(c.meta["expect"][-1][3])])
